@@ -117,7 +117,7 @@ func c01Check(b []byte, codes []int, bigexp bool, out *sink) (evals int) {
 
 // replay-c01 cases=<TLC output> out=<mismatch file>
 func replayC01(args map[string]string) error {
-	out, err := newSink(argStr(args, "out", "/dev/null"))
+	out, err := newMismatchSink(argStr(args, "out", "/dev/null"))
 	if err != nil {
 		return err
 	}
@@ -194,11 +194,20 @@ func c01Inputs(seed uint64, n int, deep bool, emit func(kind string, b []byte)) 
 		case 3: // stream of several texts
 			u := append(append([]byte(nil), t...), []byte{' ', '\n'}[r.IntN(2)])
 			emit("stream", append(u, genText(r, c)...))
-		case 4:
+		case 4, 5:
 			long := r.IntN(2) == 0
 			nn := 1 + r.IntN(80)
+			if r.IntN(2) == 0 {
+				nn = 60 + r.IntN(20) // around the switch from linear search to a map
+			}
 			dup := -1
-			if r.IntN(3) > 0 {
+			switch r.IntN(6) {
+			case 0:
+			case 1:
+				dup = 0
+			case 2:
+				dup = nn - 1
+			default:
 				dup = r.IntN(nn)
 			}
 			emit("wide", wideObject(r, nn, long, dup, r.IntN(2) == 0))
@@ -207,20 +216,23 @@ func c01Inputs(seed uint64, n int, deep bool, emit func(kind string, b []byte)) 
 		}
 	}
 	if deep {
-		pats := []func(i int) bool{
-			func(i int) bool { return false },
-			func(i int) bool { return true },
-			func(i int) bool { return i%2 == 0 },
-			func(i int) bool { return i >= 5000 },
-		}
-		for _, d := range []int{9998, 9999, 10000, 10001, 10002} {
+		for _, d := range []int{9999, 10000, 10001, 10002} {
+			pats := []func(i int) bool{
+				func(i int) bool { return false },
+				func(i int) bool { return true },
+				func(i int) bool { return i%2 == 0 },
+				func(i int) bool { return i == d-1 }, // arrays around an innermost object
+				func(i int) bool { return i != d-1 }, // objects around an innermost array
+				func(i int) bool { return i >= 5000 },
+			}
 			for pi, p := range pats {
-				if pi >= 2 && d != 10000 && d != 10001 {
+				if pi >= 5 && d != 10000 && d != 10001 {
 					continue
 				}
 				emit("deep", nested(d, p, ""))
-				if pi == 0 {
+				if pi < 2 {
 					emit("deep", nested(d-1, p, "0"))
+					emit("deep", nested(d-1, p, `{"b":[]}`))
 				}
 			}
 		}
